@@ -19,6 +19,10 @@ class Unsupported(Exception):
     pass
 
 
+COQ_KEYWORDS = {"end", "in", "at", "as", "fun", "match", "with", "return", "Type", "Set", "Prop", "let", "fix", "cofix", "forall", "exists",
+                "if", "then", "else", "where", "for", "using", "struct", "mod", "by", "do", "is"}
+
+
 # ------------------------------------------------------------------------------------------ computation terms
 class C:
     pass
@@ -354,7 +358,7 @@ class Fn:
                     r = "maybe"
             return r
         k = node.get("k")
-        if k == "Return":
+        if k in ("Return", "Continue"):
             return "always"
         if k == "Try":
             return "maybe"
@@ -476,7 +480,7 @@ class Fn:
             if a == nm:
                 return krest()
             s.sub.pop(nm, None)
-            if nm in s.tr.reserved:
+            if nm in s.tr.reserved or nm in COQ_KEYWORDS:
                 s.sub[nm] = nm + "_"
                 return Let(nm + "_", a, krest())
             return Let(nm, a, krest())
@@ -487,6 +491,11 @@ class Fn:
     def stmt(s, e, krest):
         """expression in statement position; its value is discarded"""
         k = e["k"]
+        if k == "Continue":
+            # the rest of this iteration is skipped: the loop body's value is "no early exit"
+            if s.loop_depth != 1 or s.ret_mode != "maybe" or s.maybe_vars:
+                raise Unsupported("continue outside the top level of a loop body")
+            return Ret("None")
         if k == "Return":
             if e["e"] is None:
                 return s.do_return("tt")
@@ -526,7 +535,10 @@ class Fn:
         outer_mode = s.ret_mode
         outer_vars = s.maybe_vars
         s.ret_mode, s.maybe_vars = "maybe", tuple(vars_)
+        ld = s.loop_depth
+        s.loop_depth = 0
         inner = s.scoped(lambda: s.expr(e, K(lambda a, t: Ret(s.maybe_fall()), cheap=True)))
+        s.loop_depth = ld
         s.ret_mode, s.maybe_vars = saved
         kn = s.fresh("k")
         r = s.fresh("r")
@@ -562,7 +574,10 @@ class Fn:
                     saved = (s.ret_mode, s.maybe_vars)
                     outer = s.ret_mode
                     s.ret_mode, s.maybe_vars = "maybe", ()
+                    ld = s.loop_depth
+                    s.loop_depth = 1
                     body = s.scoped(lambda: s.seq(e["body"], 0, K(lambda a, t: Ret("None"), cheap=True)))
+                    s.loop_depth = ld
                     s.env[n] = "usize"
                     s.ret_mode, s.maybe_vars = saved
                     b = s.fresh("brk")
@@ -572,8 +587,11 @@ class Fn:
                 return s.expr(it["hi"], K(with_hi))
             return s.expr(it["lo"], K(with_lo))
         # for x in <slice or iterator call>: the locals the body assigns are the loop's accumulators
-        if e["pat"]["k"] == "Ident":
-            x = e["pat"]["name"]
+        fpat = e["pat"]
+        if fpat["k"] == "Reference" and fpat["pat"]["k"] == "Ident":
+            fpat = fpat["pat"]
+        if fpat["k"] == "Ident":
+            x = fpat["name"]
             accs = s.assigned_locals(e["body"])
             if len(accs) != 1:
                 raise Unsupported("for-each loop with %d accumulators" % len(accs))
@@ -861,9 +879,89 @@ class Fn:
             return s.join(k, build, hint, "m")
         return s.expr(e["e"], K(with_scrut))
 
+    def structural(s, p):
+        k = p["k"]
+        if k in ("Ident", "Wild"):
+            return True
+        if k == "Path":
+            return p["path"][-1] == "None"
+        if k == "Reference":
+            return s.structural(p["pat"])
+        if k == "Tuple":
+            return all(s.structural(x) for x in p["elems"])
+        if k == "TupleStruct":
+            return p["path"][-1] in ("Some", "Ok", "Err") and len(p["elems"]) == 1 and s.structural(p["elems"][0])
+        return False
+
+    def depth(s, p):
+        if p["k"] == "TupleStruct":
+            return 1 + max([s.depth(x) for x in p["elems"]] + [0])
+        if p["k"] == "Reference":
+            return s.depth(p["pat"])
+        if p["k"] == "Tuple":
+            return max([s.depth(x) for x in p["elems"]] + [0])
+        return 0
+
+    def deep_pat(s, p, ty):
+        """Coq pattern text for a structural Rust pattern; binds the identifiers it introduces (with their types)"""
+        k = p["k"]
+        if k == "TupleStruct":
+            c = p["path"][-1]
+            sub = None
+            if ty and ty[0] == "opt" and c == "Some":
+                sub = ty[1]
+            elif ty and ty[0] == "res" and c == "Ok":
+                sub = ty[1]
+            elif ty and ty[0] == "res" and c == "Err":
+                sub = ty[2]
+            else:
+                raise Unsupported("pattern %s on %s" % (c, ty))
+            return "%s %s" % (c, paren(s.deep_pat(p["elems"][0], sub)))
+        if k == "Path":
+            return "None"
+        if k == "Tuple" and not p["elems"]:
+            return "tt"
+        return s.pat_text(p, ty)
+
+    def match_int(s, a, arms, kb):
+        """match on an unsigned integer: literal arms (with optional guards) tried in order, then the catch-all"""
+        def chain(i):
+            if i == len(arms):
+                raise Unsupported("integer match without a catch-all arm")
+            arm = arms[i]
+            p = arm["pat"]
+            def body():
+                return s.scoped(lambda: s.expr(arm["body"], kb))
+            if p["k"] == "Lit" and p["lit"]["k"] == "Int":
+                cond = "(%s =? %s)" % (paren(a), p["lit"]["digits"])
+                if arm["guard"]:
+                    return s.expr(arm["guard"], K(lambda g, _t: If("%s && %s" % (cond, paren(g)), body(), chain(i + 1))))
+                return If(cond, body(), chain(i + 1))
+            if p["k"] in ("Ident", "Wild"):
+                def bound():
+                    if p["k"] == "Ident":
+                        s.env[p["name"]] = "usize"
+                        s.sub[p["name"]] = a
+                    if arm["guard"]:
+                        return s.expr(arm["guard"], K(lambda g, _t: If(g, s.expr(arm["body"], kb), chain(i + 1))))
+                    return s.expr(arm["body"], kb)
+                return s.scoped(bound)
+            raise Unsupported("integer pattern " + p["k"])
+        return chain(0)
+
     def match_arms(s, a, t, arms, kb):
         if not t:
             raise Unsupported("match on a value of unknown type")
+        if t in ("usize", "u64", "u8", "int"):
+            return s.match_int(a, arms, kb)
+        if t[0] in ("opt", "res") and not any(arm["guard"] for arm in arms) and all(s.structural(arm["pat"]) for arm in arms) \
+                and any(s.depth(arm["pat"]) >= 2 for arm in arms):
+            out = []
+            for arm in arms:
+                def one(arm=arm):
+                    return (s.deep_pat(arm["pat"], t), s.expr(arm["body"], kb))
+                out.append(s.scoped(one))
+            return Match(a, out)
         if t[0] == "opt":
             ctors = [("Some", [t[1]]), ("None", [])]
         elif t[0] == "res":
@@ -1095,6 +1193,8 @@ class Fn:
             key = (recv["member"], m)
             if st and key in st.fieldops:
                 return st.fieldops[key](s, e, k, hint)
+        if recv["k"] == "Index" and (recv["index"]["k"] == "Range" or (recv["index"]["k"] == "Path" and s.env.get(recv["index"]["path"][0]) == ("range",))):
+            recv = {"k": "Reference", "mut": m in ("copy_from_slice", "fill", "copy_within"), "e": recv}
         def with_recv(a, t):
             key = (t[0] if isinstance(t, tuple) else t, m)
             f = LIB.get(key)
@@ -1137,6 +1237,7 @@ class Fn:
         raise Unsupported("call of " + key)
 
     post = None
+    loop_depth = 0        # 1 while translating statements that belong directly to a for / loop body (not to a nested join)
     backing = {}      # rb local made by ReadBuf::new(<alias of an outer ReadBuf>) -> (outer variable, view atom)
 
     def e_Await(s, e, k, hint):
@@ -1176,6 +1277,8 @@ class Fn:
         return s.expr(e["e"], K(lambda a, t: s.expr(e["len"], K(lambda n, _t: k("repeat %s (Z.to_nat %s)" % (paren(a), paren(n)), ("array",))))))
 
     def e_Macro(s, e, k, hint):
+        if e["path"][-1] == "matches":
+            raise Unsupported("matches! (its pattern argument is not an expression)")
         if e["path"][-1] == "write" and s.cfg.get("fmt_fn"):
             return s.write_macro(e, k)
         return s.stmt(e, lambda: k("tt", "unit"))
@@ -1300,6 +1403,20 @@ def lib_alias_copy_from_slice(s, a, t, al, k, hint):
     return s.expr(al[0], K(with_src))
 
 
+def lib_opt_map(s, a, t, al, k, hint):
+    """o.map(|x| body): the closure runs only for Some"""
+    c = al[0]
+    if not (c["k"] == "Closure" and len(c["inputs"]) == 1 and c["inputs"][0]["k"] in ("Ident", "Wild", "Tuple")):
+        raise Unsupported("Option::map with this closure")
+    def build(kb):
+        def some():
+            pt = s.pat_text(c["inputs"][0], t[1])
+            return ("Some %s" % pt, s.expr(c["body"], K(lambda b, tb: kb("Some %s" % paren(b), ("opt", tb)))))
+        arm1 = s.scoped(some)
+        return Match(a, [arm1, ("None", kb("None", ("opt", None)))])
+    return s.join(k, build, hint, "m")
+
+
 def lib_result_map(s, a, t, al, k, hint):
     c = al[0]
     if c["k"] == "Closure" and len(c["inputs"]) == 1 and c["inputs"][0]["k"] == "Wild" and c["body"]["k"] == "Tuple" and not c["body"]["elems"]:
@@ -1387,6 +1504,7 @@ LIB = {
     ("view", "copy_from_slice"): lib_view_copy_from_slice,
     ("alias", "copy_from_slice"): lib_alias_copy_from_slice,
     ("res", "map"): lib_result_map,
+    ("opt", "map"): lib_opt_map,
 }
 
 
@@ -1428,6 +1546,7 @@ def call_from_utf8(s, al, k, hint):
 
 
 CALLS = {
+    "usize::min": call_min, "u64::min": call_min, "Ord::min": call_min, "core::cmp::Ord::min": call_min, "std::cmp::Ord::min": call_min,
     "ReadBuf::new": call_readbuf_new, "tokio::io::ReadBuf::new": call_readbuf_new,
     "String::new": call_string_new, "core::ascii::escape_default": call_escape_default, "core::str::from_utf8": call_from_utf8,
     "tokio::io::AsyncReadExt::read": call_async_read,
